@@ -71,11 +71,11 @@ func (c *Ctx) buildVC(fn *ssa.Function, con *Contract) *Unit {
 		return post
 	}
 	if con != nil {
-		u.onReturn = func(f *Frame, rst *State, vals []Val, k int) {
+		u.onReturn = func(f *Frame, rst *State, vals []Val, k int, pos token.Pos) {
 			env := &SpecEnv{u: u, st: rst, old: entry, vars: bindPost(vals), oldVars: params, pkg: con.Pkg, fr: pf}
 			for _, e := range con.Ensures {
 				t := env.boolExpr(e.Expr)
-				u.oblige(f, rst, "ensures", fmt.Sprintf("%s/return%d", e.label(), k+1), t, token.NoPos)
+				u.oblige(f, rst, "ensures", fmt.Sprintf("%s/return%d", e.label(), k+1), t, pos)
 			}
 		}
 	}
@@ -92,65 +92,12 @@ func (c *Ctx) buildVC(fn *ssa.Function, con *Contract) *Unit {
 
 // frameObligations: every pre-existing object outside the assigns clause is unchanged.
 func (u *Unit) frameObligations(f *Frame, out, entry *State, con *Contract, params map[string]Val) {
-	env := &SpecEnv{u: u, st: entry, old: entry, vars: params, oldVars: params, pkg: con.Pkg, fr: &Frame{u: u, fn: u.fn, pure: true}}
-	type exc struct {
-		ref   string
-		loc   *Loc
-		whole bool
-	}
-	byHeap := map[string][]exc{}
-	for _, a := range con.Assigns {
-		for _, l := range env.lvalue(a) {
-			var hn string
-			switch l.loc.Kind {
-			case LHeap:
-				hn = u.em.heapName(l.loc.RootTy)
-			case LElem:
-				hn = u.em.elemHeapName(l.loc.RootTy)
-			default:
-				continue
-			}
-			byHeap[hn] = append(byHeap[hn], exc{ref: l.loc.Ref, loc: l.loc, whole: l.whole})
-		}
-	}
 	for _, hn := range sortedKeys(out.heaps) {
-		ty := u.heapTy[hn]
-		h1 := out.heaps[hn]
-		h0 := u.heapGet(entry, hn, ty)
-		if h1 == h0 {
-			continue
+		if g := u.frameGoal(hn, out, entry, con); g != "" {
+			u.oblige(f, out, "frame", hn, g, token.NoPos)
 		}
-		if strings.HasPrefix(hn, "M_") || strings.HasPrefix(hn, "VM_") {
-			// maps: whole-object frame only
-			u.oblige(f, out, "frame", hn, fmt.Sprintf("(forall ((r Int)) (=> (and (> r 0) (<= r alloc_init)) (= (select %s r) (select %s r))))", h1, h0), token.NoPos)
-			continue
-		}
-		excs := byHeap[hn]
-		var goal string
-		if strings.HasPrefix(hn, "E_") {
-			// arrays: r not a wholly assigned base => equal except assigned indices
-			expected := fmt.Sprintf("(select %s r)", h0)
-			var conds []string
-			for _, e := range excs {
-				if e.whole {
-					conds = append(conds, fmt.Sprintf("(not (= r %s))", e.ref))
-				} else {
-					expected = fmt.Sprintf("(ite (= r %s) (store %s %s (select (select %s r) %s)) %s)", e.ref, expected, e.loc.Idx, h1, e.loc.Idx, expected)
-				}
-			}
-			goal = fmt.Sprintf("(forall ((r Int)) (=> (and (> r 0) (<= r alloc_init) %s) (= (select %s r) %s)))", strings.Join(conds, " "), h1, expected)
-		} else {
-			expected := fmt.Sprintf("(select %s r)", h0)
-			for _, e := range excs {
-				// patched old value: assigned path takes the new value
-				newv := u.project(fmt.Sprintf("(select %s r)", h1), e.loc.RootTy, e.loc.Path)
-				patched := u.updatePath(expected, e.loc.RootTy, e.loc.Path, newv)
-				expected = fmt.Sprintf("(ite (= r %s) %s %s)", e.ref, patched, expected)
-			}
-			goal = fmt.Sprintf("(forall ((r Int)) (=> (and (> r 0) (<= r alloc_init)) (= (select %s r) %s)))", h1, expected)
-		}
-		u.oblige(f, out, "frame", hn, goal, token.NoPos)
 	}
+	env := &SpecEnv{u: u, st: entry, old: entry, vars: params, oldVars: params, pkg: con.Pkg, fr: &Frame{u: u, fn: u.fn, pure: true}}
 	for g, v := range out.globals {
 		allowed := false
 		for _, a := range con.Assigns {
@@ -164,4 +111,72 @@ func (u *Unit) frameObligations(f *Frame, out, entry *State, con *Contract, para
 			u.oblige(f, out, "frame", "global:"+g.Name(), fmt.Sprintf("(= %s %s)", v, u.globalGet(entry, g)), token.NoPos)
 		}
 	}
+}
+
+// frameGoal: formula stating that heap map hn in state now differs from the entry
+// state only at the locations named by the assigns clause (for pre-existing objects).
+func (u *Unit) frameGoal(hn string, now, entry *State, con *Contract) string {
+	ty := u.heapTy[hn]
+	if ty == nil {
+		return ""
+	}
+	h1, ok := now.heaps[hn]
+	if !ok {
+		return ""
+	}
+	var h0 string
+	if strings.HasPrefix(hn, "M_") || strings.HasPrefix(hn, "VM_") {
+		h0 = hn + "_init"
+	} else {
+		h0 = u.heapGet(entry, hn, ty)
+	}
+	if h1 == h0 {
+		return ""
+	}
+	if strings.HasPrefix(hn, "M_") || strings.HasPrefix(hn, "VM_") {
+		return fmt.Sprintf("(forall ((r Int)) (=> (and (> r 0) (<= r alloc_init)) (= (select %s r) (select %s r))))", h1, h0)
+	}
+	params := u.topParams
+	env := &SpecEnv{u: u, st: entry, old: entry, vars: params, oldVars: params, pkg: con.Pkg, fr: &Frame{u: u, fn: u.fn, pure: true}}
+	type exc struct {
+		ref   string
+		loc   *Loc
+		whole bool
+	}
+	var excs []exc
+	for _, a := range con.Assigns {
+		for _, l := range env.lvalue(a) {
+			var n string
+			switch l.loc.Kind {
+			case LHeap:
+				n = u.em.heapName(l.loc.RootTy)
+			case LElem:
+				n = u.em.elemHeapName(l.loc.RootTy)
+			default:
+				continue
+			}
+			if n == hn {
+				excs = append(excs, exc{ref: l.loc.Ref, loc: l.loc, whole: l.whole})
+			}
+		}
+	}
+	if strings.HasPrefix(hn, "E_") {
+		expected := fmt.Sprintf("(select %s r)", h0)
+		var conds []string
+		for _, e := range excs {
+			if e.whole {
+				conds = append(conds, fmt.Sprintf("(not (= r %s))", e.ref))
+			} else {
+				expected = fmt.Sprintf("(ite (= r %s) (store %s %s (select (select %s r) %s)) %s)", e.ref, expected, e.loc.Idx, h1, e.loc.Idx, expected)
+			}
+		}
+		return fmt.Sprintf("(forall ((r Int)) (! (=> (and (> r 0) (<= r alloc_init) %s) (= (select %s r) %s)) :pattern ((select %s r))))", strings.Join(conds, " "), h1, expected, h1)
+	}
+	expected := fmt.Sprintf("(select %s r)", h0)
+	for _, e := range excs {
+		newv := u.project(fmt.Sprintf("(select %s r)", h1), e.loc.RootTy, e.loc.Path)
+		patched := u.updatePath(expected, e.loc.RootTy, e.loc.Path, newv)
+		expected = fmt.Sprintf("(ite (= r %s) %s %s)", e.ref, patched, expected)
+	}
+	return fmt.Sprintf("(forall ((r Int)) (! (=> (and (> r 0) (<= r alloc_init)) (= (select %s r) %s)) :pattern ((select %s r))))", h1, expected, h1)
 }
